@@ -75,7 +75,7 @@ func synthetic() pipe.Tree {
 		"go.mod":       pipe.GoMod(modPath, "1.24"),
 		"dep1/dep1.go": "package dep1\n\nimport \"" + modPath + "/dep2\"\n\nvar V = dep2.W\n\ntype T int\n",
 		"dep2/dep2.go": "package dep2\n\nimport \"" + modPath + "/dep3\"\n\nvar W = dep3.X\n",
-		"dep3/dep3.go": "package dep3\n\nvar X = 1\n\nfunc f() { type T int }\n",
+		"dep3/dep3.go": "package dep3\n\nvar X = 1\n\nfunc f() { type T int }\n\n// the package declares some predeclared names itself\ntype error interface{ Error() string }\n\nconst true = 1 == 1\n\nfunc len(x string) int { return 0 }\n",
 	}
 	for bits := 0; bits < 1<<nBits; bits++ {
 		name := fmt.Sprintf("k%03d", bits)
@@ -115,6 +115,23 @@ func checkUniverse(c *core.Ctx, corpus string, u *gengotypes.Universe, pkgPaths 
 			continue
 		}
 		scope := p.Pkg().Scope()
+		// predeclared (universe) names are not members of the package unless it declares them itself
+		for _, n := range types.Universe.Names() {
+			c.Trans(1)
+			o := scope.Lookup(n)
+			_, isType := o.(*types.TypeName)
+			_, isConst := o.(*types.Const)
+			_, isFunc := o.(*types.Func)
+			if got := p.Type(n); (got != nil) != isType || (got != nil && got != o) {
+				c.Fail("", cs, "%s: Type(%q) = %v, the package scope holds %v", path, n, got, o)
+			}
+			if got := p.Constant(n); (got != nil) != isConst || (got != nil && got != o) {
+				c.Fail("", cs, "%s: Constant(%q) = %v, the package scope holds %v", path, n, got, o)
+			}
+			if got := p.Function(n); (got != nil) != isFunc || (got != nil && got != o) {
+				c.Fail("", cs, "%s: Function(%q) = %v, the package scope holds %v", path, n, got, o)
+			}
+		}
 		for _, n := range []string{"OnlyInTest", "OnlyInExtTest", "OnlyInIgnored"} {
 			if p.Type(n) != nil || p.Types()[n] != nil {
 				c.Fail("", cs, "%s lists the type %s, which is declared in a test file / a file excluded by its build constraint", path, n)
